@@ -123,6 +123,7 @@ def run_shard(pid, tier, seed, shard, nshards, out):
         if os.environ.get('VERIF_CONTRACTS', '1') != '0':
             from . import attach
             attach.install(ctx)
+        reach = _start_reach()
         if hasattr(mod, 'setup'):
             mod.setup(ctx)
         import signal, statistics
@@ -161,6 +162,7 @@ def run_shard(pid, tier, seed, shard, nshards, out):
         if hasattr(mod, 'teardown'):
             mod.teardown(ctx)
         res = ctx.dump(time.time() - t0)
+        res['reach'] = sorted(reach)
     except Inconclusive as e:
         res = ctx.dump(time.time() - t0)
         res['inconclusive'] = str(e)
@@ -171,10 +173,34 @@ def run_shard(pid, tier, seed, shard, nshards, out):
         json.dump(res, f)
 
 
+def _start_reach():
+    """which functions of the working-tree sources does this shard's workload actually enter?  (sys.monitoring, each code object
+    reports once and is then disabled, so the cost is negligible).  Evidence of reach, and the list tools/reach.py turns into
+    'functions no check ever drives'."""
+    reach = set()
+    try:
+        mon = sys.monitoring
+        src = os.path.realpath(os.path.join(bootstrap.REPO, 'src')) + os.sep
+        tool = mon.PROFILER_ID
+        mon.use_tool_id(tool, 'vmon-reach')
+
+        def on_start(code, offset):
+            fn = code.co_filename
+            if fn.startswith(src):
+                reach.add(f'{fn[len(src):]}::{code.co_qualname}')
+            return mon.DISABLE
+        mon.register_callback(tool, mon.events.PY_START, on_start)
+        mon.set_events(tool, mon.events.PY_START)
+    except Exception:
+        pass
+    return reach
+
+
 def merge(results):
     m = {'evaluations': 0, 'sigs': set(), 'counters': {}, 'maxstats': {}, 'violations': [], 'vcount': {},
-         'samples': [], 'harness_errors': [], 'inconclusive': [], 'wall': 0.0, 'foreign': []}
+         'samples': [], 'harness_errors': [], 'inconclusive': [], 'wall': 0.0, 'foreign': [], 'reach': set()}
     for r in results:
+        m['reach'].update(r.get('reach', []))
         m['evaluations'] += r.get('evaluations', 0)
         m['sigs'].update(r.get('sigs', []))
         for k, v in r.get('counters', {}).items():
@@ -314,6 +340,7 @@ def conclude(pid, tier, seed, m, wall):
         'known_findings_seen': {k: m['vcount'].get(k, 0) for k in known_keys},
         'new_violation_keys': sorted(new_by_key),
         'inconclusive_reasons': reasons,
+        'repo_functions_entered': {'count': len(m['reach']), 'names': sorted(m['reach'])},
         'exhaustive': bool(getattr(mod, 'EXHAUSTIVE', {}).get(tier, False)) if isinstance(getattr(mod, 'EXHAUSTIVE', None), dict) else False,
     }
     if hasattr(mod, 'extra_coverage'):
